@@ -40,7 +40,10 @@ def gpp_check(workdir, name, text, decls):
     return p.returncode == 0, p.stdout.decode("utf-8", "replace")[-600:]
 
 
-def compare_pair(res_p, res_x, base_p, base_x, first_use_rel, x1=True):
+one_sided = [0]
+
+
+def compare_pair(res_p, res_x, base_p, base_x, first_use_rel, x1=True, known_only=False):
     """returns list of (kind, detail) differences"""
     diffs = []
     if res_p is None or res_x is None:
@@ -61,13 +64,24 @@ def compare_pair(res_p, res_x, base_p, base_x, first_use_rel, x1=True):
         diffs.append(("findings", "only with the alias/macro/template: %s; only in the expanded program: %s" % (only_p[:3], only_x[:3])))
     vp = {k: v for k, v in E.known_values(bp, base_p).items() if k[0] >= first_use_rel}
     vx = {k: v for k, v in E.known_values(bx, base_x).items() if k[0] >= first_use_rel}
+    if known_only:
+        vp = {k: [x for x in v if x[0] == "K"] for k, v in vp.items()}
+        vx = {k: [x for x in v if x[0] == "K"] for k, v in vx.items()}
+        vp = {k: v for k, v in vp.items() if v}
+        vx = {k: v for k, v in vx.items() if v}
+        # cppcheck deliberately skips several inferences on macro-expanded tokens: a value present on one side only is
+        # counted, not alarmed; a token with different Known values on the two sides is a difference
+        one_sided[0] += len(set(vp) ^ set(vx))
+        common = set(vp) & set(vx)
+        vp = {k: vp[k] for k in common}
+        vx = {k: vx[k] for k in common}
     if x1 and vp != vx:
         ks = sorted(set(vp) ^ set(vx) | {k for k in set(vp) & set(vx) if vp[k] != vx[k]})
         diffs.append(("values", "Known/Impossible values differ at (line, token) %s: %s vs %s" % (ks[0], vp.get(ks[0]), vx.get(ks[0]))))
     return diffs
 
 
-def run_pairs(run, stream, work, pairs, x1=True, style_too=True):
+def run_pairs(run, stream, work, pairs, x1=True, style_too=True, known_only=False):
     """pairs: list of dict(p=(text, base), x=(text, base), nuse_rel, meta). Returns list of (pair, diffs)."""
     names = []
     for k, pr in enumerate(pairs):
@@ -79,7 +93,7 @@ def run_pairs(run, stream, work, pairs, x1=True, style_too=True):
     out = []
     for k, pr in enumerate(pairs):
         rp, rx = res["%s_%d_p.cpp" % (stream, k)], res["%s_%d_x.cpp" % (stream, k)]
-        d = compare_pair(rp, rx, pr["p"][1], pr["x"][1], pr["first_use"], x1=x1)
+        d = compare_pair(rp, rx, pr["p"][1], pr["x"][1], pr["first_use"], x1=x1, known_only=known_only)
         nf = len(rp[1]) if rp else 0
         nv = len(E.known_values(E.body_tokens(rp[0]), pr["p"][1])) if rp else 0
         run.count(stream, None, nontrivial=hashlib.sha1(pr["p"][0].encode()).hexdigest() if (nf or nv) else None,
@@ -121,7 +135,9 @@ def check(run, replay):
     run.assumptions += ["g++ compiles /repo faithfully"]
     run.extra["rule"] = ("alias: 1-3 typedef/using aliases (base types, struct tag, pointers, arrays, pointers to function, aliases of aliases) and 1-4 local declarations through them "
                          "with further declarator nesting; every variable used in assignments, conditions, indices (in and out of bounds), calls, member access, dereference. "
-                         "macro: object-/function-like macros with parenthesised bodies and parameters, 2-4 invocations in initialisers, conditions, indices, calls, divisions. "
+                         "macro: sets of 2-4 function-like macros (parenthesised parameters), an object-like macro naming a function-like one, one whose body is an invocation, a constant; "
+                         "2-4 invocation trees per program, nested in each other's arguments up to depth 4 (same macro in itself, two / three macros alternating, free mix, arguments that are "
+                         "full expressions) in initialisers, conditions, indices, calls, divisions; twin = call-by-name expansion, cross-checked with gcc -E -P. "
                          "template: one function or class template instantiated at one type vs the hand-written instantiation. non-trivial = distinct program for which the binary "
                          "reports at least one finding or Known/Impossible value on the using code.")
     vlib.ensure_repo_build()
@@ -194,11 +210,27 @@ def check(run, replay):
         # ---------------- macros
         n = 120 if quick else 2000
         mp = []
+        gcc_bad = []
         for _ in range(n):
-            (pt, pb), (xt, xb) = E.gen_macro_pair(rng)
-            mp.append(dict(p=(pt, pb), x=(xt, xb), first_use=1))
-        bad = run_pairs(run, "macro", work, mp, style_too=False)
+            (pt, pb), (xt, xb), info = E.gen_macro_pair(rng)
+            mp.append(dict(p=(pt, pb), x=(xt, xb), first_use=1, info=info,
+                           cls="object-like-naming-function-like" if "ALIAS(" in pt else "nested-function-like"))
+            # the Python call-by-name expansion vs gcc -E on the original
+            ge = E.gcc_expand(pt)
+            if ge is not None:
+                import re as _re
+                mine = _re.sub(r"\s+", "", xt)
+                run.count("macro:gcc", None, nontrivial=pt, bucket="depth %d %s" % (info["depth"], "same" if ge == mine else "DIFF"))
+                if ge != mine:
+                    gcc_bad.append((pt, xt))
+        run.stream("macro:gcc")["disagreements"] += len(gcc_bad)
+        for pt, xt in gcc_bad[:2]:
+            run.violation("macrogcc:" + hashlib.sha1(pt.encode()).hexdigest()[:10], "gcc -E and the call-by-name expansion of the check disagree",
+                          {"broken": "expander vs gcc -E", "program": pt, "expanded": xt}, found_input=False)
+        run.extra["macro_depth_histogram"] = {str(d): sum(1 for m in mp if m["info"]["depth"] == d) for d in range(0, 6)}
+        bad = run_pairs(run, "macro", work, mp, style_too=False, known_only=True)
         report(run, "macro", bad)
+        run.extra["macro_known_values_on_one_side_only"] = one_sided[0]
         if mp:
             run.samples.append({"stream": "macro", "program": mp[0]["p"][0], "expanded": mp[0]["x"][0]})
 
